@@ -1,6 +1,7 @@
 import BufProofs.Lemmas.PathLemmas
 import BufProofs.Lemmas.BucketLemmas
 import BufProofs.Props.C13
+import BufProofs.Lemmas.DiskLemmas
 /-
   C14 — All bucket implementations and combinators behave as one path→bytes map.
 
@@ -30,6 +31,7 @@ inductive Out where
   | content (c : Content)
   | objs (l : List (Str × Content))
   | err (e : PErr)
+  deriving DecidableEq
 
 /-- One step of the memory bucket. Failed operations leave the state unchanged. -/
 def memStep (m : Mem) : Op → Mem × Out
@@ -360,6 +362,108 @@ theorem untar_tar (src : Mem) (hv : KeysValid src) (hn : NodupKeys src) :
   cases habs : abs src k with
   | some c => rfl
   | none => simp [abs, Mem.find]
+
+/-! ### The disk bucket (a file tree) refines the same map on prefix-free histories -/
+
+open BufModel.Disk in
+/-- One step of the disk-bucket tree model. -/
+def diskStep (d : Disk) : Op → Disk × Out
+  | .get p => match diskGet d p with
+      | .ok c => (d, .content c) | .error e => (d, .err e)
+  | .put p c => match diskPut d p c with
+      | .ok d' => (d', .done) | .error e => (d, .err e)
+  | .delete p => match diskDelete d p with
+      | .ok d' => (d', .done) | .error e => (d, .err e)
+  | .deleteAll p => match diskDeleteAll d p with
+      | .ok d' => (d', .done) | .error e => (d, .err e)
+  | .walk p => match diskWalk d p with
+      | .ok l => (d, .objs l) | .error e => (d, .err e)
+
+open BufModel.Disk in
+def diskRun (d : Disk) : List Op → Disk × List Out
+  | [] => (d, [])
+  | op :: rest =>
+    let r := diskStep d op
+    let rr := diskRun r.1 rest
+    (rr.1, r.2 :: rr.2)
+
+open BufModel.Disk in
+/-- The prefix-free discipline of a history relative to the set `U` of keys it ever puts:
+    puts only put keys of `U`; a delete never addresses a directory or a path below a file; a
+    delete-all / walk prefix is not strictly below a file. -/
+def OpOK (U : List Key) : Op → Prop
+  | .get _ => True
+  | .put p _ => ∀ k, AllProper k → k ≠ [] → normalizeAndValidate p = .ok (renderKey k) → k ∈ U
+  | .delete p => ∀ k, AllProper k → normalizeAndValidate p = .ok (renderKey k) → Unrelated U k
+  | .deleteAll p => ∀ k, AllProper k → normalizeAndValidate p = .ok (renderKey k) → ∀ u ∈ U, ¬ Below u k
+  | .walk p => ∀ k, AllProper k → normalizeAndValidate p = .ok (renderKey k) → ∀ u ∈ U, ¬ Below u k
+
+open BufModel.Disk in
+theorem disk_step_refines (U : List Key) (hU : UProper U) (hpf : PrefixFree U) (d : Disk)
+    (inv : TreeInv U d) (op : Op) (hop : OpOK U op) :
+    (diskStep d op).1.files = (memStep d.files op).1 ∧ (diskStep d op).2 = (memStep d.files op).2 ∧
+      TreeInv U (diskStep d op).1 := by
+  cases op with
+  | get p => simp only [diskStep, memStep, diskGet]; cases memGet d.files p <;> exact ⟨by first | rfl | trivial, by first | rfl | trivial, inv⟩
+  | put p c =>
+    rcases validatePath_cases p with ⟨e, hnv, hvp⟩ | ⟨hnv, hvp⟩ | ⟨k, hk, hne, hnv, hvp⟩
+    · simp only [diskStep, memStep, diskPut, memPut, hvp]; exact ⟨by first | rfl | trivial, by first | rfl | trivial, inv⟩
+    · simp only [diskStep, memStep, diskPut, memPut, hvp]; exact ⟨by first | rfl | trivial, by first | rfl | trivial, inv⟩
+    · obtain ⟨d', h1, h2, h3⟩ := diskPut_eq_mem inv hU hpf p c k hk hne hvp (hop k hk hne hnv)
+      simp only [diskStep, memStep, h1, h2]; exact ⟨by first | rfl | trivial, by first | rfl | trivial, h3⟩
+  | delete p =>
+    rcases validatePath_cases p with ⟨e, hnv, hvp⟩ | ⟨hnv, hvp⟩ | ⟨k, hk, hne, hnv, hvp⟩
+    · simp only [diskStep, memStep, diskDelete, memDelete, hvp]; exact ⟨by first | rfl | trivial, by first | rfl | trivial, inv⟩
+    · simp only [diskStep, memStep, diskDelete, memDelete, hvp]; exact ⟨by first | rfl | trivial, by first | rfl | trivial, inv⟩
+    · rcases diskDelete_eq_mem inv hU p k hk hne hvp (hop k hk hnv) with ⟨d', h1, h2, h3⟩ | ⟨h1, h2⟩
+      · simp only [diskStep, memStep, h1, h2]; exact ⟨by first | rfl | trivial, by first | rfl | trivial, h3⟩
+      · simp only [diskStep, memStep, h1, h2]; exact ⟨by first | rfl | trivial, by first | rfl | trivial, inv⟩
+  | deleteAll p =>
+    cases hnv : normalizeAndValidate p with
+    | error e =>
+      simp only [diskStep, memStep, diskDeleteAll, memDeleteAll, validatePrefix, hnv]; exact ⟨by first | rfl | trivial, by first | rfl | trivial, inv⟩
+    | ok q =>
+      obtain ⟨k, hk, hq⟩ := BufModel.Path.validate_sound p q hnv
+      subst hq
+      obtain ⟨d', h1, h2, h3⟩ := diskDeleteAll_eq_mem inv hU p k hk (by unfold validatePrefix; exact hnv) (hop k hk hnv)
+      simp only [diskStep, memStep, h1, h2]; exact ⟨by first | rfl | trivial, by first | rfl | trivial, h3⟩
+  | walk p =>
+    cases hnv : normalizeAndValidate p with
+    | error e =>
+      have h1 : underFile d.files p = false := by unfold underFile validatePrefix; rw [hnv]
+      simp only [diskStep, memStep, diskWalk, h1, Bool.false_eq_true, if_false]
+      cases memWalk d.files p <;> exact ⟨by first | rfl | trivial, by first | rfl | trivial, inv⟩
+    | ok q =>
+      obtain ⟨k, hk, hq⟩ := BufModel.Path.validate_sound p q hnv
+      subst hq
+      have := diskWalk_eq_mem inv hU p k hk (by unfold validatePrefix; exact hnv) (hop k hk hnv)
+      simp only [diskStep, memStep, this]
+      cases memWalk d.files p <;> exact ⟨by first | rfl | trivial, by first | rfl | trivial, inv⟩
+
+open BufModel.Disk in
+/-- disk_refines_map: on every history that keeps to a prefix-free set `U` of object keys (no
+    object name is a directory of another; deletes address objects, not directories; prefixes
+    do not point below an object) the disk bucket — a real file TREE with directories, ENOTDIR /
+    EISDIR failures and leftover empty directories — gives exactly the outputs of the memory
+    bucket and holds exactly the same objects; by `mem_refines_spec` it therefore behaves as
+    the abstract path→bytes map. -/
+theorem disk_refines_map (U : List Key) (hU : UProper U) (hpf : PrefixFree U) (ops : List Op)
+    (hops : ∀ op ∈ ops, OpOK U op) (d : Disk) (inv : TreeInv U d) :
+    (diskRun d ops).1.files = (memRun d.files ops).1 ∧ (diskRun d ops).2 = (memRun d.files ops).2 := by
+  induction ops generalizing d with
+  | nil => exact ⟨rfl, rfl⟩
+  | cons op rest ih =>
+    obtain ⟨hf, ho, hinv⟩ := disk_step_refines U hU hpf d inv op (hops op (by simp))
+    obtain ⟨ihf, iho⟩ := ih (fun o ho => hops o (List.mem_cons_of_mem _ ho)) (diskStep d op).1 hinv
+    simp only [diskRun, memRun]
+    rw [hf] at ihf iho
+    exact ⟨ihf, by rw [ho, iho]⟩
+
+/-- Outside the discipline the tree and the map DO differ (why the hypothesis is needed): a put
+    below an existing object fails on disk and succeeds in memory. -/
+theorem disk_differs_without_prefix_freedom :
+    (diskRun BufModel.Disk.empty [.put "a".toList "1", .put "a/b".toList "2"]).2 ≠
+      (memRun [] [.put "a".toList "1", .put "a/b".toList "2"]).2 := by decide
 
 -- non-vacuity: a concrete history with awkward spellings, run through the model
 example : (memRun [] [.put "a//x".toList "1", .put "./b".toList "2", .deleteAll "a/.".toList, .get "b/".toList]).2.length = 4 := by
